@@ -589,6 +589,8 @@ fn emit_name_section(cx: &mut EmitContext) {
         .module
         .types
         .iter()
+        // function-entry types are internal and are never emitted
+        .filter(|typ| !typ.is_for_function_entry())
         .filter_map(|typ| typ.name.as_ref().map(|name| (typ, name)))
         .map(|(typ, name)| (cx.indices.get_type_index(typ.id()), name))
         .collect::<Vec<_>>();
